@@ -92,8 +92,13 @@ def registry(rng: random.Random) -> Dict[str, Callable[[int], Callable[[], objec
         m.add(b)
         return m
 
-    def optimizer():
-        m = mesh_with_box()
+    def optimizer(far=False):
+        m = cb.Mesh() if far else mesh_with_box()
+        if far:
+            b = box().translate([300.0, -250.0, 400.0])
+            for a in range(3):
+                b.chop(a, count=2)
+            m.add(b)
         m.assemble()
         return cb.MeshOptimizer(m, report=False), m
 
@@ -155,19 +160,20 @@ def registry(rng: random.Random) -> Dict[str, Callable[[int], Callable[[], objec
                 opt.add_clamp(cb.FreeClamp(m.vertices[0].position))
         return run
 
-    def clamp_position(v):
+    def clamp_position(v, far=False):
         def run():
-            opt, m = optimizer()
-            p = list(m.vertices[0].position) if v == 1 else [x + 0.31 * scale for x in m.vertices[0].position]
+            opt, m = optimizer(far)
+            miss = 1e-3 if far else 0.31 * scale
+            p = list(m.vertices[0].position) if v == 1 else [x + miss for x in m.vertices[0].position]
             opt.add_clamp(cb.FreeClamp(p))
         return run
 
-    def link(which):
+    def link(which, far=False):
         def make(v):
             def run():
-                opt, m = optimizer()
+                opt, m = optimizer(far)
                 lead, foll = list(m.vertices[0].position), list(m.vertices[1].position)
-                off = [x + 0.37 * scale for x in (lead if which == "leader" else foll)]
+                off = [x + (1e-3 if far else 0.37 * scale) for x in (lead if which == "leader" else foll)]
                 if v == 0:
                     if which == "leader":
                         lead = off
@@ -181,6 +187,9 @@ def registry(rng: random.Random) -> Dict[str, Callable[[int], Callable[[], objec
     reg["Optimizer.add_clamp.position"] = clamp_position
     reg["Optimizer.add_link.leader"] = link("leader")
     reg["Optimizer.add_link.follower"] = link("follower")
+    reg["Optimizer.add_clamp.position.far"] = lambda v: clamp_position(v, far=True)
+    reg["Optimizer.add_link.leader.far"] = link("leader", far=True)
+    reg["Optimizer.add_link.follower.far"] = link("follower", far=True)
     return reg
 
 
